@@ -652,7 +652,7 @@ theorem compS_wf (cx : Ctx) : ∀ (s : Stmt) (lp : LoopCtx) (st : St), Wf st →
     intro lp st h
     cases init with
     | none => simp only [compS]; exact wf_newLocal h x
-    | some e => simp only [compS]; exact wf_nl (wf_newLocal h x) _
+    | some e => simp only [compS]; exact wf_newLocal (wf_nl h _) x
   | exprStmt e => intro lp st h; simp only [compS]; exact wf_nl h _
   | discard e => intro lp st h; simp only [compS]; exact wf_nl h _
   | panicS e => intro lp st h; simp only [compS]; exact wf_nl h _
